@@ -219,6 +219,10 @@ func genForest(g *Gen, pf scnProfile) []glayer {
 		if g.Chance(pf.pWeirdImport, 100) {
 			l.imports = append(l.imports, weirdImports[g.Intn(len(weirdImports))])
 		}
+		if pf.shape == "chain" && i == 0 && g.Chance(15, 100) {
+			// an import below the layer's own recursive bind of /dev
+			l.imports = []string{"import rbind /dev /dev", "import proc /proc /proc", "import bind $$self/shm /dev/shm"}
+		}
 		if g.Chance(25, 100) {
 			l.exports = append(l.exports, "export symlink /var/cache/binpkgs $$package_export")
 		}
@@ -351,6 +355,17 @@ func genScenario(g *Gen, pf scnProfile) Case {
 				st["args"] = hxs([]string{pickName()})
 				st["all"] = g.Chance(5, 100)
 			}
+		case "mur":
+			// a history: mount (makes the export links), unmount, then remove or rename
+			nm := pickName()
+			steps = append(steps, obj("cmd", "mount", "args", hxs([]string{nm})))
+			steps = append(steps, obj("cmd", "umount", "args", hxs([]string{nm})))
+			if g.Chance(70, 100) {
+				steps = append(steps, obj("cmd", "remove", "args", hxs([]string{nm}), "files", false))
+			} else {
+				steps = append(steps, obj("cmd", "rename", "args", hxs([]string{nm, legalNames[g.Intn(len(legalNames))]})))
+			}
+			continue
 		case "sysmount":
 			// a mount the administrator made by hand: right or wrong source on an import
 			// mountpoint, or something foreign below a build root
@@ -378,11 +393,31 @@ func genScenario(g *Gen, pf scnProfile) Case {
 			continue
 		case "sysumount":
 			ln := "b0"
+			var lay *glayer
 			if len(forest) > 0 {
-				ln = forest[g.Intn(len(forest))].name
+				lay = &forest[g.Intn(len(forest))]
+				ln = lay.name
 			}
 			build := VB + "/layers/" + ln + "/build"
-			st["args"] = hxs([]string{build + g.Pick("/proc", "/dev", "/dev/pts", "/mnt/host", "/mnt/sub", "/var/cache/binpkgs", "/mnt/gen", "")})
+			tgt := build + g.Pick("/proc", "/dev", "/dev/pts", "/mnt/host", "/mnt/sub", "/var/cache/binpkgs", "/mnt/gen", "")
+			if lay != nil && len(lay.imports) > 0 && g.Chance(70, 100) {
+				// one of the layer's own imports, mostly a later one
+				k := len(lay.imports) - 1
+				if g.Chance(40, 100) {
+					k = g.Intn(len(lay.imports))
+				}
+				tgt = build + mountpointOf(lay.imports[k])
+				if g.Chance(50, 100) {
+					// mount, take one import away by hand, mount again
+					steps = append(steps, obj("cmd", "mount", "args", hxs([]string{ln})))
+					st["args"] = hxs([]string{tgt})
+					steps = append(steps, st)
+					steps = append(steps, obj("cmd", "mount", "args", hxs([]string{ln})))
+					steps = append(steps, obj("cmd", "mount", "args", hxs([]string{ln})))
+					continue
+				}
+			}
+			st["args"] = hxs([]string{tgt})
 			steps = append(steps, st)
 			continue
 		default:
@@ -422,7 +457,7 @@ func genScenario(g *Gen, pf scnProfile) Case {
 	return Case{"op": "scenario", "cfg": defaultCfg(), "tree": t.list(), "host": hostTable(g, pf.hostVariants), "steps": steps}
 }
 
-var structuralCmds = []string{"add", "add", "add", "remove", "remove", "rename", "rename", "rebase", "rebase", "mkdirs", "probe"}
+var structuralCmds = []string{"add", "add", "add", "remove", "remove", "rename", "rename", "rebase", "rebase", "mkdirs", "probe", "mur"}
 var mountCmds = []string{"mount", "mount", "mount", "umount", "umount", "chroot", "shake", "mkdirs", "add", "probe", "sysmount", "sysumount", "sysumount"}
 var allCmds = append(append([]string{"init"}, structuralCmds...), mountCmds...)
 
